@@ -13,7 +13,8 @@ RULE = (
     "types (single and lists) x existing kind copy/hardlink/symlink x with/without State; plus a stream with "
     "target objects missing from the cache; plus two-checkout histories in one process on one cache directory "
     "(forced checkout of version 1, objects collected from the cache, unforced checkout of version 2 through the "
-    "same or a fresh odb object); plus histories record/modify/replace/remove/clean-up on tracked links with "
+    "same or a fresh odb object, or a timestamp-preserving restore of a checked-out file - new inode, same size and "
+    "mtime, uncached bytes - under an attached hash state); plus histories record/modify/replace/remove/clean-up on tracked links with "
     "sub-second (0.25 s, 1 us) in-place rewrites inside recorded directory links.  Every case is run twice (second call on the result).  Non-trivial: the first call changed the "
     "workspace or raised."
 )
@@ -25,12 +26,31 @@ ASSUMPTIONS = [
 ]
 
 
+# checked out with a hash state attached, then restored by the user over the same path with the same size
+# and mtime but another inode and uncached bytes; the next unforced checkout must refuse (each link type)
+CORPUS = [
+    {"stream": "history", "cls": cls, "types": [ty], "state": True, "relink": False, "second": "plain",
+     "force": True, "prompt": "none", "prior": None, "target": {"a": "A", "sub/c": "B"}, "cache": ["A", "B", "D"],
+     "call2": {"drop": [], "target": {"a": "A", "sub/c": "D"}, "force": False, "prompt": pm, "relink": False,
+               "fresh_odb": fresh, "user": "replace_preserving:sub/c"}}
+    for cls, ty, pm, fresh in (("local", "copy", "none", False), ("base", "hardlink", "no", True),
+                               ("local", "symlink", "none", True))
+]
+
+
 def run(ctx):
     C.check_deciders(ctx)
     streams = [("guard", ctx.n(50, 550)), ("history", ctx.n(25, 250)), ("missing", ctx.n(15, 150)), ("converge", ctx.n(10, 100))]
     if C.INCLUDE_DANGLING:
         streams.append(("dangling", ctx.n(10, 100)))
     items = C.run_stream(ctx, streams, "C05")
+    for case in CORPUS:                                     # regression inputs, always run
+        case = dict(case, contents=dict(C.CONTENT_POOL))
+        r = C.run_case(ctx, case)
+        ctx.case(case, r["nontrivial"])
+        for sig, what in r["c05"]:
+            ctx.oracle_fail(sig, what, case)
+        items.extend(r["items"])
     ctx.obligation("oracle:no-unrecoverable-loss", not any(v.kind == "oracle" for v in ctx.violations),
                    f"{len(items)} real checkouts: every byte string lost from the workspace accounted against the cache / prompt")
     ctx.correspond("checkout", C.IMPORTS, "co_in", "fun i => enc_result (run_in i)", items, shard=60)
